@@ -18,7 +18,7 @@ var commands = map[string]func(*Run){}
 // Properties whose inputs can take the whole process down (a panic in a server goroutine cannot
 // be recovered): the work runs in a child process; if it dies, the parent reports the crash with
 // the last datagram delivered as the replay.
-var isolated = map[string]bool{"C01": true, "C08": true, "C05": true, "C06": true, "C09": true, "C10": true, "C11": true, "C19": true}
+var isolated = map[string]bool{"C01": true, "C08": true, "C05": true, "C06": true, "C09": true, "C10": true, "C11": true, "C19": true, "C12": true}
 
 func main() {
 	if len(os.Args) < 2 {
